@@ -664,12 +664,16 @@ impl BuiltInFunction {
                     s
                 };
 
-                if let Ok(num) = i32::from_str_radix(
-                    s,
-                    (*radix)
-                        .try_into()
-                        .with_context(|| format!("`{radix}` is an invalid radix"))?,
-                ) {
+                let radix: u32 = (*radix)
+                    .try_into()
+                    .with_context(|| format!("`{radix}` is an invalid radix"))?;
+
+                // positional notation needs at least two digits, and digits and letters give at most 36
+                if radix < 2 || radix > 36 {
+                    bail!("`{radix}` is an invalid radix (a radix lies between 2 and 36)")
+                }
+
+                if let Ok(num) = i32::from_str_radix(s, radix) {
                     Ok((
                         Some(Primitive::Optional(Some(Box::new(Primitive::Int(num))))),
                         None,
@@ -693,12 +697,16 @@ impl BuiltInFunction {
                     s
                 };
 
-                if let Ok(num) = i128::from_str_radix(
-                    s,
-                    (*radix)
-                        .try_into()
-                        .with_context(|| format!("`{radix}` is an invalid radix"))?,
-                ) {
+                let radix: u32 = (*radix)
+                    .try_into()
+                    .with_context(|| format!("`{radix}` is an invalid radix"))?;
+
+                // positional notation needs at least two digits, and digits and letters give at most 36
+                if radix < 2 || radix > 36 {
+                    bail!("`{radix}` is an invalid radix (a radix lies between 2 and 36)")
+                }
+
+                if let Ok(num) = i128::from_str_radix(s, radix) {
                     Ok((
                         Some(Primitive::Optional(Some(Box::new(Primitive::BigInt(num))))),
                         None,
